@@ -51,31 +51,75 @@ def _q(sheet):
     return "'%s'" % sheet.replace("'", "''")
 
 
+def _style(desc, node, host):
+    """Deterministic spelling style of one occurrence of a reference, when
+    the description asks for respelling (desc['spelling'] = seed)."""
+    seed = desc.get('spelling')
+    if seed is None:
+        return None
+    import random
+    return random.Random('spell/%s/%r/%r' % (seed, node, host))
+
+
 def ref_text(desc, node, host=None, full=False):
-    """Reference text of a ref node as seen from host=(b, s)."""
+    """Reference text of a ref node as seen from host=(b, s).
+
+    With desc['spelling'] set, every occurrence is spelled in one of the
+    equivalent forms of the same rectangle: $ markers, letter case, reversed
+    corners, explicit qualification with its own sheet, quoted / case-changed
+    sheet name, case of defined names."""
     k = node[0]
+    st = _style(desc, node, host)
     if k == 'name':
+        nm = node[1]
+        if st:
+            nm = st.choice((nm, nm.upper(), nm.lower(), nm.swapcase()))
         if full:
             nb = desc['names'][node[1]][1]
-            return "'[%s]'!%s" % (desc['books'][nb]['name'], node[1])
-        return node[1]
+            return "'[%s]'!%s" % (desc['books'][nb]['name'], nm)
+        return nm
     b, s = node[1], node[2]
     bk = desc['books'][b]
     sh = bk['sheets'][s]['name']
+
+    def cell(c, r):
+        c, r = col_name(c), '%d' % r
+        if st:
+            c = st.choice(('', '$')) + st.choice((c, c.lower()))
+            r = st.choice(('', '$')) + r
+        return c + r
     if k == 'cell':
-        ref = '%s%d' % (col_name(node[3]), node[4])
+        ref = cell(node[3], node[4])
+        if st and st.random() < 0.15:
+            ref = '%s:%s' % (ref, cell(node[3], node[4]))      # redundant A1:A1
     elif k == 'rng':
-        ref = '%s%d:%s%d' % (col_name(node[3]), node[4], col_name(node[5]), node[6])
+        c1, r1, c2, r2 = node[3:7]
+        if st:
+            if st.random() < 0.3:
+                c1, c2 = c2, c1                                  # reversed corners
+            if st.random() < 0.3:
+                r1, r2 = r2, r1
+        ref = '%s:%s' % (cell(c1, r1), cell(c2, r2))
     elif k == 'row':
         ref = '%d:%d' % (node[3], node[4])
+        if st:
+            ref = '%s%d:%s%d' % (st.choice(('', '$')), node[3], st.choice(('', '$')), node[4])
     elif k == 'col':
         ref = '%s:%s' % (col_name(node[3]), col_name(node[4]))
+        if st:
+            ref = st.choice((ref, ref.lower(), '$%s:$%s' % (
+                col_name(node[3]), col_name(node[4]))))
     else:
         raise ValueError(k)
+    if st:
+        sh = st.choice((sh, sh.upper(), sh.lower(), sh.swapcase()))
     if full or host is None or host[0] != b:
         return "'[%s]%s'!%s" % (bk['name'], sh.replace("'", "''"), ref)
-    if host[1] != s:
-        return '%s!%s' % (_q(sh), ref)
+    if host[1] != s or (st and st.random() < 0.25):
+        q = _q(sh)
+        if st and not q.startswith("'") and st.random() < 0.5:
+            q = "'%s'" % sh
+        return '%s!%s' % (q, ref)
     return ref
 
 
